@@ -324,8 +324,53 @@ def judge(ctx, case):
         ctx.count('cases_near_a_limit')
 
 
+def repo_suite_under_monitors(ctx, only=None):
+    """the repository's own tests as one more workload: every Tape read and
+    Stack append they cause goes through the same invariant hooks"""
+    import json
+    import os
+    import subprocess
+    import sys
+    import tempfile
+    root = os.path.dirname(os.path.dirname(os.path.dirname(
+        os.path.abspath(__file__))))
+    os.makedirs(os.path.join(root, '.work'), exist_ok=True)
+    with tempfile.TemporaryDirectory(dir=os.path.join(root, '.work')) as td:
+        rep = os.path.join(td, 'report.json')
+        envv = dict(os.environ, PYTHONPATH=root, TSVERIF_PYTEST_REPORT=rep,
+                    PYTHONDONTWRITEBYTECODE='1')
+        envv.pop('TAPESCRIPT_VERIF', None)
+        cmd = [sys.executable, '-B', '-m', 'pytest', '-q', '-p',
+               'tsverif.pytest_monitors', '-p', 'no:cacheprovider',
+               '--timeout=600'] + ([only] if only else [])
+        try:
+            subprocess.run(cmd, cwd=env.REPO, env=envv, capture_output=True,
+                           timeout=900)
+        except subprocess.TimeoutExpired:
+            ctx.inconclusive_because('repository suite under monitors timed '
+                                     'out')
+            return
+        if not os.path.exists(rep):
+            ctx.inconclusive_because('repository suite under monitors wrote '
+                                     'no report')
+            return
+        r = json.load(open(rep))
+    ctx.evaluated(r['tests'])
+    ctx.count('repo_suite.tests_run', r['tests'])
+    ctx.count('repo_suite.tape_reads', r['reads'])
+    ctx.count('repo_suite.stack_appends', r['appends'])
+    ctx.max('repo_suite.max_stack_len', r['max_stack'])
+    ctx.max('repo_suite.max_item_size', r['max_item'])
+    for nodeid, k, d in r['problems']:
+        ctx.violation(k, 'limit invariant broken at the hook while the '
+                      f'repository test {nodeid} ran: {d}',
+                      {'repo_test': nodeid}, 'no breach', d)
+
+
 def run_shard(spec, ctx):
     i, of = spec['shard'], spec['of']
+    if i == 0:
+        repo_suite_under_monitors(ctx)
     n = NCASE[ctx.tier] // of
     for j in range(n):
         rng = ctx.rng(j)
@@ -348,6 +393,9 @@ def finalize(agg, tier):
               'monitor.stack_appends', 'cases_near_a_limit'):
         if not c.get(k):
             out.append(f'{k} == 0: deciding monitor never reached')
+    if not c.get('repo_suite.tape_reads') or \
+            not c.get('repo_suite.stack_appends'):
+        out.append('the repository suite produced no monitored event')
     m = agg['maxes']
     if m.get('max_chain_seen', 0) < 16 or m.get('max_loop_iters_seen', 0) < 16:
         out.append('call chain / loop iteration monitors never saw depth 16')
@@ -355,4 +403,6 @@ def finalize(agg, tier):
 
 
 def replay(case, ctx):
+    if 'repo_test' in case:
+        return repo_suite_under_monitors(ctx, case['repo_test'])
     judge(ctx, case)
